@@ -239,6 +239,10 @@ func checkC10(p *Prog, l *Ledger) {
 	}
 	l.Funcs[p.FuncKey(conv)] = true
 	checkTransliteration(p, l, conv)
+	// ---- S0: the literal the scanner sees is the literal in the file: the script reaches the scanner as one text,
+	// decoded in one piece (a Bangla digit is three bytes; a text decoded in pieces can cut one in two, an ASCII digit never)
+	checkRunPipeline(p, l, "C10/S0-text-reaches-scanner")
+	checkWholeText(p, l, "C10/S0-text-reaches-scanner")
 	// ---- S2 classifier
 	isDigit := p.Func("lexer.isDigit")
 	var digits []ivl
